@@ -372,6 +372,7 @@ LEVEL_TEXT = ('Machine-checked proof (Coq 8.16.1) over Pool.connect / OraPool.co
               'inside a live session that already has a connection - is refuted for every history (the child\'s next statement goes out on the parent\'s connection '
               'without passing the pid check) and recorded as a known finding, confirmed by real os.fork() runs, which also tie the model to /repo.')
 LEVEL_NOTE = ('Trusted: Coq kernel + vm_compute; py2coq translator; the hand-written fork/session model (tied by real-fork correspondence on SQLite only); harness proxy for '
-              'sqlite3. OraPool and the generic Pool under PostgreSQL/MySQL are covered by translation + theorem, not executed. db.disconnect() in the child is outside the theorem.')
+              'sqlite3. PGPool and the base Pool (MySQL) also run real-fork histories at pool level against a recording stub driver; OraPool (incl. SessionPool / acquire failing) is translation + theorem only. '
+              'db.disconnect() in the child closing the inherited connection is a known finding with a proposed fix.')
 TECHNIQUE = 'py2coq translation of Pool.connect/OraPool.connect; Coq invariant proof over operation histories (induction on op lists); real os.fork() correspondence via vm_compute; statement-level oracle'
 DESIGN_REF = 'DESIGN.md section 5, C36'
